@@ -241,11 +241,19 @@ func vpC02Term(ti int) {
 			vpAssert("kind/number-unquoted/"+cell, m.kind == 'n')
 		case "Time":
 			ok := m.kind == 's'
+			var parsed time.Time
 			if ok {
-				_, perr := time.Parse(time.RFC3339, string(m.str))
+				var perr error
+				parsed, perr = time.Parse(time.RFC3339, string(m.str))
 				ok = perr == nil
 			}
 			vpAssert("kind/instant-rfc3339/"+cell, ok)
+			if ok {
+				// ... and it names the instant the value holds, whatever zone that is kept in
+				if want, isTime := vpFieldBox(x, f).(time.Time); isTime {
+					vpAssert("kind/instant-is-the-same-moment/"+cell, parsed.Equal(want.Truncate(time.Second)))
+				}
+			}
 		case "Duration":
 			ok := m.kind == 's'
 			if ok {
